@@ -86,19 +86,27 @@ Definition k3 : list node := [SDelete [EAttr (nm "p") "a" Del P0] P0; Other "Exp
 (* t = 1; del t  - the del itself is warned about *)
 Definition k4 : list node := [SAssign [st "t"] (EConst None) P0; SDelete [EName "t" Del (2, 4)] (2, 0)].
 
+(* the match captures are the remaining class; the other three are repaired (5c7d323, 0e6fa15, 686ac63) *)
 Lemma spurious_classes :
-  warns k1 = [("exc", P0)] /\ warns k2 = [("m1", P0)] /\ warns k3 = [("p", P0); ("p", P0)] /\ warns k4 = [("t", (2, 4))].
+  warns k2 = [("m1", P0)] /\ warns k1 = [] /\ warns k3 = [] /\ warns k4 = [].
 Proof. vm_compute. repeat split; reflexivity. Qed.
 
-(* the handler name IS bound at the point of the read, per the specification's forward pass *)
+(* the capture IS bound at the point of the read, per the specification's forward pass *)
 Definition unbound_site (body : list node) (w : string * pos) : bool :=
   existsb (fun s => String.eqb (st_name s) (fst w) && FaSpecCheck.pos_eqb (st_pos s) (snd w) && negb (st_bound s))
           (sites_of ["getattr"; "setattr"; "hasattr"; "delattr"] (fn_of body)).
-Lemma k1_read_is_bound : unbound_site k1 ("exc", P0) = false /\ In ("exc", P0) (warns k1).
+Lemma k2_read_is_bound : unbound_site k2 ("m1", P0) = false /\ In ("m1", P0) (warns k2).
 Proof.
   split; [vm_compute; reflexivity|]. unfold warns.
-  assert (E : v_warn (snd (run k1)) = [("exc", P0)]) by (vm_compute; reflexivity). rewrite E. left. reflexivity.
+  assert (E : v_warn (snd (run k2)) = [("m1", P0)]) by (vm_compute; reflexivity). rewrite E. left. reflexivity.
 Qed.
+
+(* the handler's name is defined inside the handler and undefined after it, as in Python *)
+Definition k5 : list node :=
+  [Other "Try" [] [Other "ExceptHandler" ["exc"] [nm "p"; Other "Expr" [] [at_ (nm "exc") "args"]]];
+   Other "Expr" [] [EAttr (EName "exc" Load (9, 0)) "after" Load (9, 0)]].
+Lemma handler_name_is_scoped_to_the_handler : warns k5 = [("exc", (9, 0))].
+Proof. vm_compute. reflexivity. Qed.
 
 (* the binding constructs that ARE registered: no warning *)
 Definition b_ok : list node :=
@@ -117,5 +125,5 @@ Definition b_warn : list node :=
   [SDelete [EName "x" Del (1, 4)] (1, 0); Other "Expr" [] [EAttr (EName "x" Load (2, 0)) "after" Load (2, 0)];
    Other "Expr" [] [EName "nowhere" Load (3, 0)];
    Other "Expr" [] [EComp KListComp [nm "u"] [EGen (st "u") (nm "y") []] P0]; Other "Expr" [] [EName "u" Load (5, 0)]].
-Lemma unbound_reads_warned : warns b_warn = [("x", (1, 4)); ("x", (2, 0)); ("nowhere", (3, 0)); ("u", (5, 0))].
+Lemma unbound_reads_warned : warns b_warn = [("x", (2, 0)); ("nowhere", (3, 0)); ("u", (5, 0))].
 Proof. vm_compute. reflexivity. Qed.
